@@ -19,6 +19,7 @@ From FB.Gen Require Import JsonUtilGen.
 From FB.Spec Require Import Prog.
 From FB.Model Require Import Types Monad Builder Persist Build Run Frame.
 From FB.Proofs Require Import FrameLaws RollbackFaultsLaws RollbackFaultsMain.
+From FB.Proofs Require CacheGenLaws.   (* T1g: the model routines are equal to the translation of the source (Gen/CacheGen.v) *)
 Import ListNotations.
 
 (* a faulted mutating call raises OSError, changes only the call counter *)
